@@ -98,16 +98,28 @@ class Effects:
         ip = Interp(self.repo, types=param_types(self.repo, func), max_paths=1024)
         return ip.run(func, config=config)
 
-    def owners(self, func, v, depth=0):
+    def owners(self, func, v, depth=0, loops=None):
         """Parameter names of ``func`` that value ``v`` may alias."""
         if isinstance(v, Tup):
             s = set()
             for i in v.items:
-                s |= self.owners(func, i, depth)
+                s |= self.owners(func, i, depth, loops)
             return s
         root, steps = root_chain(v)
         if root is None:
             return set()
+        if root[0] == 'loop' and loops and depth < 6:
+            # a loop-carried variable aliases whatever it held before the loop or is re-bound to in it
+            s = set()
+            for lp in loops:
+                for n, phi in lp['phi'].items():
+                    if phi.single_atom()[1] == root[1]:
+                        cands = [lp['pre'].get(n)] + [e.get(n) for e in lp['ends']]
+                        for c in cands:
+                            if c is not None and not (isinstance(c, Poly) and c.single_atom() is not None
+                                                      and c.single_atom()[0] == 'loop' and c.single_atom()[1] == root[1]):
+                                s |= self.owners(func, c, depth + 1, loops)
+            return s
         if root[0] == 'sym':
             names = {p[0] for p in func.params()}
             return {root[1]} if root[1] in names else set()
@@ -142,7 +154,7 @@ class Effects:
             seen = set()
             for p in paths:
                 if p.status == 'return' and p.ret is not None:
-                    s.ret_alias |= self.owners(func, p.ret)
+                    s.ret_alias |= self.owners(func, p.ret, loops=p.state.loops)
                 for e in p.events:
                     if e.depth != 0:
                         continue
@@ -179,9 +191,10 @@ class Effects:
             ck = root[1][5:]
             if self.repo.has_func(ck) and self.repo.func(ck).is_cached:
                 s.cached_writes.append((ck, how, e.loc()))
+        lps = p.state.loops
         if how == 'augassign':
             # in-place only for arrays/lists: need evidence that the target is not a python scalar
-            own = self.owners(func, tgt)
+            own = self.owners(func, tgt, loops=lps)
             var = e.node.target.id if isinstance(getattr(e.node, 'target', None), ast.Name) else None
             for o in own:
                 direct = isinstance(tgt, Poly) and tgt.single_atom() == ('sym', o)
@@ -193,12 +206,12 @@ class Effects:
                 self._add(s, seen, o, 'in-place operator', e.loc(), None, p.conds, fmt(tgt), func.key)
             return
         if how == 'attrstore':
-            own = self.owners(func, tgt)
+            own = self.owners(func, tgt, loops=lps)
             for o in own:
                 self._add(s, seen, o, f'attribute store .{e.data.get("attr")}', e.loc(), None, p.conds,
                           fmt(tgt), func.key)
             return
-        own = self.owners(func, tgt)
+        own = self.owners(func, tgt, loops=lps)
         for o in own:
             self._add(s, seen, o, how, e.loc(), None, p.conds, fmt(tgt), func.key)
 
